@@ -1153,6 +1153,12 @@ def _schedule(prop, tier, seed):
 
         def mk(facts):
             hs = []
+            # which cases carry a packed prefilter is a fact of this tree's prefilter builder, not of the
+            # catalogue: a case that unexpectedly selects the packed searcher (seeded C05c: case-insensitive
+            # automata must never get one) is searched with it, not with the "packed unused" stub
+            for c in cases:
+                if facts[c.name]["pf_code"] == 8 and c not in pk_cases:
+                    pk_cases.append(c)
             for c in cases:
                 n = 8 if (c.maxlen >= 4 or not quick) else 7
                 if c in pk_cases:
@@ -1190,7 +1196,11 @@ def _schedule(prop, tier, seed):
             for h in hs:
                 if h.case in pk_cases:
                     f = facts[h.case.name]
-                    assert f["pf_code"] == 8, "case %s no longer selects the packed prefilter" % h.case.name
+                    if f["pf_code"] != 8:
+                        # the catalogue expected a packed prefilter here; whatever was selected instead is checked
+                        h.stubs = list(STUB_PF)
+                        h.meta["note"] = "catalogue expected the packed prefilter; this tree selected %s" % f["prefilter"][:60]
+                        continue
                     h.stubs = [st for st in STUB_PF if "packed" not in st[0]]
                     h.meta["cut"] = ("the prefilter's packed searcher is rebuilt with its Rabin-Karp half only; every "
                                      "haystack here is shorter than its Teddy minimum length (%d), where the real "
